@@ -78,7 +78,14 @@ pub fn gen_files(t: &mut Tape, gates: &Gates) -> Vec<FileCase> {
             }
             5 => {
                 let s = spell_unit(&unit, gates);
-                (format!("?\n{}", s), "lexical-error")
+                if t.flag() {
+                    (format!("?\n{}", s), "lexical-error")
+                } else {
+                    // unmatched text of every length at the end of the file (never-closed comment or
+                    // string, run of junk; ASCII and multi-byte)
+                    let tail = crate::lexeme::unmatched_tail(t);
+                    (format!("{}{}", if t.flag() { s } else { String::new() }, if tail.trim().is_empty() { "?".to_string() } else { tail }), "lexical-error")
+                }
             }
             _ => (spell_unit(&unit, gates), "valid"),
         };
